@@ -224,7 +224,9 @@ C03Checks(e) ==
                    + Look("prevQi.wholeDay", q, q.pqw, PrevPos(Tab, t, "qi", TRUE)) + Look("nextQi.wholeDay", q, q.nqw, NextPos(Tab, t, "qi", TRUE))
                    + Look("prevJieQi.wholeDay", q, q.paw, PrevPos(Tab, t, "all", TRUE)) + Look("nextJieQi.wholeDay", q, q.naw, NextPos(Tab, t, "all", TRUE))
                    + Chk("C03.ofDay.name", << q.at, q.name >>, q.name = << nm(dj), nm(djie), nm(dqi) >>)
-                   + Cur("jieQi", q.cur[1], dj) + Cur("jie", q.cur[2], djie) + Cur("qi", q.cur[3], dqi))
+                   + Cur("jieQi", q.cur[1], dj) + Cur("jie", q.cur[2], djie) + Cur("qi", q.cur[3], dqi)
+                   \* a date built from its lunar numbers carries the same table as the same date converted from the civil day
+                   + (IF Has(q, "tb2") THEN Chk("C03.table.same-by-either-construction", << q.at, q.tb2 >>, q.tb2[1] = q.tb2[2]) ELSE 0))
 
 C03Year == IsEv("C03Year") /\ Consume(C03Checks(Trace[l]))
 
@@ -289,6 +291,10 @@ C05Checks(e) ==
             + Chk("C05.eightChar.sect2", << k, q.ec2 >>, q.ec2 = << GanZhiName(yIns), GanZhiName(mIns), GanZhiName(dLate), GanZhiName(hIdx) >>)
             + Chk("C05.eightChar.deprecated-array", << k, q.bz >>,
                   q.bz = << GanZhiName(yIns), GanZhiName(mIns), GanZhiName(dLate), GanZhiName(hIdx) >>)
+            + (IF Has(q, "bz1")
+                 THEN Chk("C05.eightChar.deprecated-array", << k, "convention-1", q.bz1 >>,
+                          q.bz1 = << GanZhiName(yIns), GanZhiName(mIns), GanZhiName(dEarly), GanZhiName(hIdx) >>)
+                 ELSE 0)
             \* the hour objects of the day, whatever hour the listing object itself was built for:
             \* slot 1 is 00:00, slot i > 1 is hour 2i - 3
             + (IF Has(q, "times")
@@ -301,6 +307,12 @@ C05Checks(e) ==
                              GanZhiName(yIns) \o " " \o GanZhiName(mIns) \o " " \o GanZhiName(dLate) \o " " \o GanZhiName(hIdx) >>))
 
 C05Year == IsEv("C05Year") /\ Consume(C05Checks(Trace[l]))
+\* the clock-string helper: the branch of the two-hour slot the minute lies in (23:00-00:59 is the rat hour)
+C05Clock ==
+  /\ IsEv("C05Clock")
+  /\ Consume(SumSeq(Trace[l].rows, LAMBDA x :
+        LET b == ((x[1] + 1) \div 2) % 12
+        IN Chk("C05.clock-string.hour-branch", << x[1], x[2], x[3], x[4], x[5] >>, x[6] = 0 /\ x[4] = b /\ x[5] = Zhi[b + 1])))
 
 (***************************************************************************)
 (* C02Year: new-moon days and the leap rule.                               *)
@@ -385,6 +397,6 @@ C06PairChecks(e) ==
 C06Pair == IsEv("C06Pair") /\ Consume(C06PairChecks(Trace[l]))
 
 TraceInit == KitInit
-TraceNext == C06Year \/ LunarEdge \/ C01Year \/ C03Year \/ C05Year \/ C02Year \/ C02Icu \/ C06Pair
+TraceNext == C06Year \/ LunarEdge \/ C01Year \/ C03Year \/ C05Year \/ C05Clock \/ C02Year \/ C02Icu \/ C06Pair
 TraceSpec == TraceInit /\ [][TraceNext]_tvars
 =============================================================================
